@@ -104,7 +104,7 @@ def gen_cases(ctx):
                 meta.append((m, Fraction(pm)))
         files.append((fvs, atoms, meta))
     # random sum-formula files with Q-peaks
-    nf = 200 if ctx.thorough() else 25
+    nf = 2000 if ctx.thorough() else 25
     for _ in range(nf):
         fvs = rng.choice(fv_lists[:3])
         atoms, meta = [], []
